@@ -142,8 +142,8 @@ def make_env(cfg):
     import rl4co.envs as E
 
     if cfg["env"] == "tsp_kopt":
-        return E.TSPkoptEnv(generator_params=dict(num_loc=cfg["n"]), k_max=cfg.get("k", 2)), False
-    return E.PDPRuinRepairEnv(generator_params=dict(num_loc=cfg["n"])), True
+        return E.TSPkoptEnv(generator_params=dict(num_loc=cfg["n"], init_sol_type=cfg.get("init", "random")), k_max=cfg.get("k", 2)), False
+    return E.PDPRuinRepairEnv(generator_params=dict(num_loc=cfg["n"], init_sol_type=cfg.get("init", "random"))), True
 
 
 def sampler_case(ctx, case):
